@@ -2,7 +2,7 @@
 from . import facts
 
 
-def build_graph(crate):
+def build_graph(crate, std_dispatch=True):
     """fn path -> set(fn path). Unresolved trait-method calls get an edge to every
     local impl of a method of that name for that trait (over-approximation);
     a function has an edge to every closure it creates."""
@@ -29,7 +29,7 @@ def build_graph(crate):
                 out.add(tgt)
                 continue
             tr = c.get("trait")
-            if tr and "resolved" not in c:
+            if tr and "resolved" not in c and (std_dispatch or c.get("crate") == crate.name):
                 local_tr = tr
                 if c.get("crate") == crate.name:
                     pass
